@@ -135,7 +135,7 @@ def check(run):
         mode, impl = W.stable_harness(wd)
         model = vlib.build_model("wal")
         run.notes.append("effect numbering mode: " + mode)
-        n = (60 if run.tier == "quick" else 1500) * mult
+        n = (200 if run.tier == "quick" else 15000) * mult
         jobs = []
         cdir = os.path.join(vlib.VERIF, "corpus", "C08")
         for cf in sorted(os.listdir(cdir)) if os.path.isdir(cdir) else []:
